@@ -10,6 +10,9 @@ import (
 func Run(t *testing.T, p *plan.Plan, keepLog int) *Result {
 	switch p.Family {
 	case "router":
+		if p.Arm == "cli" {
+			return RunCLI(t, p, keepLog)
+		}
 		return RunRouter(t, p, keepLog)
 	case "xport":
 		return RunXport(t, p, keepLog)
